@@ -148,6 +148,9 @@ class Cli:
             preamble=self.preamble
         )
         if self.output_file:
+            # Fail before the file is opened (and truncated) if the text can not be written,
+            # i.e. command line arguments with undecodable bytes end up in the header as lone surrogates
+            output.encode("utf-8")
             with open(self.output_file, "w", encoding="utf-8") as f:
                 f.write(output)
             return f"Output is written to {self.output_file}"
